@@ -430,6 +430,17 @@ func (s *Sim) Yield(what string) {
 		return
 	}
 	s.afterResume(t)
+	if what == "conn.write" {
+		// Step == -1 addresses "after the last storage step, before the response is written"
+		for _, f := range s.Faults {
+			if !f.Fired && f.Task == t.ID && f.Step == -1 && f.Kind == "crash" {
+				f.Fired = true
+				s.FaultsFired["crash"]++
+				s.Tracef("t%d CRASH before response", t.ID)
+				s.kill(t)
+			}
+		}
+	}
 	s.Tracef("t%d %s", t.ID, what)
 	s.schedPoint(t)
 }
